@@ -177,20 +177,39 @@ Definition uni_ok (atol rtol eps : Q) (rows out : QM) : bool :=
   let scs := map (uni_scores Qops) cols in
   let gmax := match concat (map snd scs) with [] => 0 | x :: r => maxl Qops x r end in
   same_shape rows out && all2 (uni_col_ok atol rtol eps gmax) cols (cols_of Qops out).
-(* unimodality_prox decides its peak candidates by `tensor - fit >= 0` on ROUNDED fits: where an entry equals its monotone fit
-   exactly (every entry of a locally monotone stretch) the floating-point flag is rounding noise, and with it the selected index.
-   A column with such an entry (margin <= tol) is ill-conditioned for the selection: there the output only has to be the column
-   assembled at SOME index (increasing fit before it, the entry itself, decreasing fit after it). *)
-Definition uni_ill (tol : Q) (col : list Q) : bool :=
+(* unimodality_prox decides its peak candidates by `tensor - fit >= 0` on ROUNDED fits: where an entry equals one of its monotone
+   fits exactly (common: every entry of a locally monotone stretch) the floating-point flag is rounding noise, and with it the fill
+   value and the selected index.  The comparison therefore demands what holds for EVERY outcome of the noisy flags:
+   an entry is definitely flagged if both margins exceed tol, possibly flagged if both are >= -tol; the selected index i must be
+     - possibly flagged with score(i) <= score(j) + eps for every definitely flagged j of the column, or
+     - possibly unflagged, and then every definitely flagged j of the column must reach the fill value, which is at least the
+       largest score of a definitely flagged entry of the whole matrix: gmin <= score(j) + eps;
+   and the output column must be the column assembled at that index.  Without ambiguous entries this is the exact rule
+   (near-minimiser among the flagged entries; an unflagged index only when every flagged one ties with the fill value). *)
+Definition uni_parts (col : list Q) : list (Q * Q * Q) :=          (* (v - inc fit, v - dec fit, score) per entry *)
   let inc := monotone_inc Qops col in let dec := monotonicity_prox Qops true col in
-  existsb (fun t : Q * (Q * Q) => Qle_bool (Qabs (fst t - fst (snd t))) tol || Qle_bool (Qabs (fst t - snd (snd t))) tol)
-          (combine col (combine inc dec)).
-Definition uni_col_weak (atol rtol : Q) (col impl : list Q) : bool :=
-  existsb (fun i => q_list_close atol rtol (uni_assemble Qops i col) impl) (seq 0 (length col)).
+  let si := cumsum_excl Qops 0 (absdiff Qops col inc) in
+  let sd := rev (cumsum_excl Qops 0 (rev (absdiff Qops col dec))) in
+  map (fun t : Q * ((Q * Q) * (Q * Q)) =>
+         (Qred (fst t - fst (fst (snd t))), Qred (fst t - snd (fst (snd t))), Qred (fst (snd (snd t)) + snd (snd (snd t)))))
+      (combine col (combine (combine inc dec) (combine si sd))).
+Definition qltb (a b : Q) : bool := negb (Qle_bool b a).
+Definition def_flag (tol : Q) (t : Q * Q * Q) : bool := qltb tol (fst (fst t)) && qltb tol (snd (fst t)).
+Definition pos_flag (tol : Q) (t : Q * Q * Q) : bool := Qle_bool (- tol) (fst (fst t)) && Qle_bool (- tol) (snd (fst t)).
+Definition uni_gmin (tol : Q) (parts : list (list (Q * Q * Q))) : Q :=
+  fold_right (fun t m => if def_flag tol t then qmax (snd t) m else m) 0 (concat parts).
+Definition uni_accept (tol eps gmin : Q) (parts : list (Q * Q * Q)) (i : nat) : bool :=
+  let t := nth i parts (0, 0, 0) in
+  let defs := filter (def_flag tol) parts in
+  (pos_flag tol t && forallb (fun u => Qle_bool (snd t) (Qred (snd u + eps))) defs)
+  || (negb (def_flag tol t) && forallb (fun u => Qle_bool gmin (Qred (snd u + eps))) defs).
+Definition uni_col_call_ok (atol rtol eps gmin : Q) (col impl : list Q) : bool :=
+  let parts := uni_parts col in
+  existsb (fun i => uni_accept atol eps gmin parts i && q_list_close atol rtol (uni_assemble Qops i col) impl) (seq 0 (length col)).
 Definition uni_call_ok (atol rtol : Q) (rows out : QM) : bool :=
-  uni_ok atol rtol (Qred (atol * 1000)) rows out
-  || (same_shape rows out && existsb (uni_ill atol) (cols_of Qops rows)
-      && all2 (uni_col_weak atol rtol) (cols_of Qops rows) (cols_of Qops out)).
+  let cols := cols_of Qops rows in
+  let gmin := uni_gmin atol (map uni_parts cols) in
+  same_shape rows out && all2 (uni_col_call_ok atol rtol (Qred (atol * 1000)) gmin) cols (cols_of Qops out).
 
 Definition call_agree (k : kind) (p : pv) (aux : Q) (rows out : QM) (atol rtol : Q) : bool :=
   let n := pv_n p in
